@@ -150,3 +150,6 @@ package sql
 //@ iface (ISelect).AndHaving(clauses)
 //@   ghostset havingArgs = clauses
 //@   modifies havingArgs
+
+// "the column compared is the day column of an index table"
+//@ spec fn isDateCol(x SQLObject) bool = typeis(x, "*RawObject") && unbox(x, "*RawObject").val == "date"
